@@ -92,6 +92,37 @@ MUTS = [
 ]
 
 
+# a refactoring mutant: `graph_topo` is gone (replaced by a `nested_in` dict) and update_scope_tree runs
+# level by level over the discovery-time nesting instead of the reversed discovery post-order
+MULTI = {
+    "R1-refactor-nested-in-level-order": [
+        (B, """        self.graph_topo = list()
+""", """        self.nested_in = {}
+"""),
+        (B, """    graph_topo: List["Graph"]
+""", """    nested_in: Dict["Graph", "Graph"]
+"""),
+        (B, """        self.graph_topo.reverse()
+""", """"""),
+        (B, """        for graph in self.graph_topo:
+            self.update_scope_tree(graph)""", """        level = {self.main: 0}
+
+        def level_of(g):
+            if g not in level:
+                level[g] = level_of(self.nested_in[g]) + 1
+            return level[g]
+
+        for graph in sorted([self.main] + list(self.nested_in), key=level_of):
+            self.update_scope_tree(graph)"""),
+        (B, """                all_arguments_sub, claimed_arguments_sub = self.discover(subgraph)""",
+         """                self.nested_in.setdefault(subgraph, graph)
+                all_arguments_sub, claimed_arguments_sub = self.discover(subgraph)"""),
+        (B, """        self.graph_topo.append(graph)
+""", """"""),
+    ],
+}
+
+
 def sh(cmd, **kw):
     return subprocess.run(cmd, shell=True, capture_output=True, text=True, cwd=V, **kw)
 
@@ -99,13 +130,15 @@ def sh(cmd, **kw):
 def main():
     want = sys.argv[1:]
     rows = []
-    for name, f, old, new in MUTS:
+    allm = [(name, [(f, old, new)]) for name, f, old, new in MUTS] + list(MULTI.items())
+    for name, edits in allm:
         if want and name not in want:
             continue
-        p = REPO / f
-        src = p.read_text()
-        assert src.count(old) == 1, (name, src.count(old))
-        p.write_text(src.replace(old, new))
+        for f, old, new in edits:
+            p = REPO / f
+            src = p.read_text()
+            assert src.count(old) == 1, (name, old, src.count(old))
+            p.write_text(src.replace(old, new))
         try:
             r = sh("./check C04 quick", timeout=900)
             out = r.stdout + r.stderr
